@@ -5,51 +5,61 @@ namespace CueVerif.ModCache
 theorem inv_zCreate {n s t c s' o} (h : Inv n s) (hp : s.pc t = .zCreate)
     (hn : next n s t c = some (s', o)) : Inv n s' := by
   open_next
-  all_goals step
+  all_goals step_pre
+  all_goals step_main
 
 theorem inv_zGet {n s t c s' o k} (h : Inv n s) (hp : s.pc t = .zGet k)
     (hn : next n s t c = some (s', o)) : Inv n s' := by
   open_next
-  all_goals step
+  all_goals step_pre
+  all_goals step_main
 
 theorem inv_zCopy {n s t c s' o k} (h : Inv n s) (hp : s.pc t = .zCopy k)
     (hn : next n s t c = some (s', o)) : Inv n s' := by
   open_next
-  all_goals step
+  all_goals step_pre
+  all_goals step_main
 
 theorem inv_zRename {n s t c s' o k} (h : Inv n s) (hp : s.pc t = .zRename k)
     (hn : next n s t c = some (s', o)) : Inv n s' := by
   open_next
-  all_goals step
+  all_goals step_pre
+  all_goals step_main
 
 theorem inv_zFail {n s t c s' o k} (h : Inv n s) (hp : s.pc t = .zFail k)
     (hn : next n s t c = some (s', o)) : Inv n s' := by
   open_next
-  all_goals step
+  all_goals step_pre
+  all_goals step_main
 
 theorem inv_zUnlock {n s t c s' o k} (h : Inv n s) (hp : s.pc t = .zUnlock k)
     (hn : next n s t c = some (s', o)) : Inv n s' := by
   open_next
-  all_goals step
+  all_goals step_pre
+  all_goals step_main
 
 theorem inv_lLock {n s t c s' o} (h : Inv n s) (hp : s.pc t = .lLock)
     (hn : next n s t c = some (s', o)) : Inv n s' := by
   open_next
-  all_goals step
+  all_goals step_pre
+  all_goals step_main
 
 theorem inv_lStatDir {n s t c s' o} (h : Inv n s) (hp : s.pc t = .lStatDir)
     (hn : next n s t c = some (s', o)) : Inv n s' := by
   open_next
-  all_goals step
+  all_goals step_pre
+  all_goals step_main
 
 theorem inv_lStatMark {n s t c s' o} (h : Inv n s) (hp : s.pc t = .lStatMark)
     (hn : next n s t c = some (s', o)) : Inv n s' := by
   open_next
-  all_goals step
+  all_goals step_pre
+  all_goals step_main
 
 theorem inv_lRmAll {n s t c s' o} (h : Inv n s) (hp : s.pc t = .lRmAll)
     (hn : next n s t c = some (s', o)) : Inv n s' := by
   open_next
-  all_goals step
+  all_goals step_pre
+  all_goals step_main
 
 end CueVerif.ModCache
